@@ -150,6 +150,13 @@ def global_state(p: Program) -> List[Tuple[str, str, str, str]]:
                     cls_level[name] = (f"{c.name}", v, getattr(v, "lineno", 0))
                 if isinstance(v, ast.Constant) and v.value is None:
                     cls_level.setdefault(name, (f"{c.name}", v, getattr(v, "lineno", 0)))
+                if isinstance(v, ast.Call) and _dotted(v.func).split(".")[-1] not in (
+                        "compile", "frozenset", "tuple", "Path", "str", "int", "TypeVar", "namedtuple", "auto", "field",
+                        "Lock", "RLock", "getLogger", "property", "staticmethod", "classmethod"):
+                    # an object created once for the class: shared by every instance and every operation of the process
+                    # (threading.local() / ContextVar: state that additionally depends on the calling thread)
+                    items.append(("class-level object", f"{c.name}.{name}", f"{m.rel()}:{getattr(v, 'lineno', 0)}",
+                                  f"= {_dotted(v.func)}(...)"))
         for mm, f in [(m, f) for f in list(m.funcs.values())] + [(m, f) for c in m.classes.values() for f in c.methods.values()]:
             for d in decorator_names(f.node):
                 if d in MEMO_DECORATORS or d.split("(")[0].split(".")[-1] in ("lru_cache", "cache", "cached_property", "memoize"):
